@@ -2,6 +2,8 @@ package dns
 
 func init() {
 	vRegister("H_C05_roundtrip", H_C05_roundtrip)
+	vRegister("H_C05_strings", H_C05_strings)
+	vRegister("H_C05_gpos", H_C05_gpos)
 	vRegister("H_C05_mnemonics", H_C05_mnemonics)
 	vRegister("H_C05_generic", H_C05_generic)
 	vRegister("H_C05_nopresentation", H_C05_nopresentation)
@@ -10,11 +12,36 @@ func init() {
 
 // vC05Reparse: String() of rr is accepted by the zone parser and packs to exactly w.
 func vC05Reparse(rr RR, w []byte, t uint16) {
+	// known findings (regions of the input space, see known_findings.json)
+	noneReserved := false // a type field holding 0 or 65535 prints as "None"/"Reserved", which the parser does not read
+	switch x := rr.(type) {
+	case *RRSIG:
+		noneReserved = x.TypeCovered == 0 || x.TypeCovered == 65535
+	case *SIG:
+		noneReserved = x.TypeCovered == 0 || x.TypeCovered == 65535
+	}
+	x25raw := false // X25 prints its PSDN address as raw text: empty or non-alphanumeric addresses do not read back
+	if x, ok := rr.(*X25); ok {
+		a, okA := refUnescapeTxt(x.PSDNAddress)
+		x25raw = !okA || len(a) == 0
+		for _, c := range a {
+			if !(c >= '0' && c <= '9' || c >= 'a' && c <= 'z' || c >= 'A' && c <= 'Z') {
+				x25raw = true
+			}
+		}
+	}
+	region, finding := noneReserved || x25raw, "C05-none-reserved-mnemonics"
+	if x25raw {
+		finding = "C05-x25-raw-text"
+	}
 	text := rr.String()
 	vReach("printed")
 	rr2, err := NewRR(text)
 	vObserve("reparse", t, len(text), err)
-	vAssert(err == nil && rr2 != nil, "string-output-is-accepted-by-the-zone-parser")
+	if vParam("debug.text", 0) == 1 {
+		vObserve("text", text)
+	}
+	vAssertExcept(err == nil && rr2 != nil, "string-output-is-accepted-by-the-zone-parser", region, finding)
 	if err != nil || rr2 == nil {
 		return
 	}
@@ -26,56 +53,112 @@ func vC05Reparse(rr RR, w []byte, t uint16) {
 	if perr != nil {
 		return
 	}
-	vAssert(off == len(w) && refBytesEqual(buf[:off], w), "same-owner-and-octet-identical-rdata")
+	vAssertExcept(off == len(w) && refBytesEqual(buf[:off], w), "same-owner-and-octet-identical-rdata", region, finding)
 }
 
 // H_C05_roundtrip: for every registry type with a presentation format: the record decoded from the RFC layout octets
 // prints to text that parses back to a record with the same owner, class, TTL, type and RDATA octets.
 func H_C05_roundtrip() {
+	vFixNow(1700000000) // RRSIG/SIG time fields are printed relative to the clock (68-year windows)
 	t := vPickType()
+	// no presentation format: ANY, NULL, NXNAME, TSIG, TKEY (printed as a comment) and OPT; GPOS has its own harness
+	vAssume(t != TypeANY && t != TypeNULL && t != TypeNXNAME && t != TypeTSIG && t != TypeTKEY && t != TypeGPOS)
 	rr, w, _ := vBuildRR("r.", t)
 	vAssume(rr != nil)
-	// class: a zone file entry is read in a class with a mnemonic or CLASSnnn; TTL: 32 bits
 	rr1, off, err := UnpackRR(w, 0)
 	vAssume(err == nil && off == len(w))
 	vC05Reparse(rr1, w, t)
 }
 
-// H_C05_mnemonics: every type and class code point, written as TYPEnnn / CLASSnnn or by its mnemonic, reads back as
-// that code point.
+// H_C05_strings: the round trip for the types that carry character-strings, URI targets or CAA values, run with
+// gen.anystr=1: every string octet ranges over all 256 values (quotes, backslashes, semicolons, parentheses, blanks,
+// newlines, NUL, non-ASCII).
+func H_C05_strings() {
+	vFixNow(1700000000)
+	ts := []uint16{TypeTXT, TypeSPF, TypeHINFO, TypeISDN, TypeURI, TypeCAA, TypeNAPTR, TypeX25, TypeAVC, TypeNINFO, TypeRESINFO, TypeUINFO}
+	t := ts[vChoice("stype", len(ts))]
+	rr, w, _ := vBuildRR("r.", t)
+	vAssume(rr != nil)
+	rr1, off, err := UnpackRR(w, 0)
+	vAssume(err == nil && off == len(w))
+	vC05Reparse(rr1, w, t)
+}
+
+// H_C05_gpos: GPOS holds three numeric text fields (RFC 1712); records with such fields read back.
+func H_C05_gpos() {
+	vals := []string{"0", "-32.5", "180.000", "89.9", "10"}
+	g := &GPOS{Hdr: RR_Header{Name: string([]byte{vLower("l")}) + ".ex.", Rrtype: TypeGPOS, Class: ClassINET, Ttl: 60}}
+	g.Longitude, g.Latitude, g.Altitude = vals[vChoice("lon", 5)], vals[vChoice("lat", 5)], vals[vChoice("alt", 5)]
+	buf := make([]byte, 128)
+	off, err := PackRR(g, buf, 0, nil, false)
+	vAssume(err == nil)
+	rr1, _, uerr := UnpackRR(buf[:off], 0)
+	vAssume(uerr == nil)
+	vC05Reparse(rr1, buf[:off], TypeGPOS)
+}
+
+// H_C05_mnemonics: TYPEnnn / CLASSnnn read as nnn for every decimal spelling (digits symbolic), every mnemonic in the
+// tables reads back as its code point through the zone parser, and code points without mnemonic print as TYPEnnn.
 func H_C05_mnemonics() {
-	code := vU16("code")
-	if vChoice("what", 2) == 0 {
-		s := Type(code).String()
-		got, ok := StringToType[s]
-		if !ok {
-			// not a mnemonic: must be TYPEnnn, which the parser's typeToInt reads
-			v, ok2 := typeToInt(s)
-			vAssert(ok2 && v == code, "type-prints-as-mnemonic-or-TYPEnnn")
-		} else {
-			vAssert(got == code, "type-mnemonic-reads-back")
+	switch vChoice("what", 4) {
+	case 0, 1: // TYPEnnn / CLASSnnn with 1..5 symbolic digits, no leading zero
+		nd := 1 + vChoice("digits", 5)
+		var ds []byte
+		val := uint32(0)
+		for i := 0; i < nd; i++ {
+			d := vDigit("d" + vItoa(i))
+			ds = append(ds, d)
+			val = val*10 + uint32(d-'0')
 		}
-		v, ok3 := typeToInt("TYPE" + vItoa(int(code)))
-		vAssert(ok3 && v == code, "TYPEnnn-reads-as-nnn")
-	} else {
-		s := Class(code).String()
-		got, ok := StringToClass[s]
-		if !ok {
-			v, ok2 := classToInt(s)
-			vAssert(ok2 && v == code, "class-prints-as-mnemonic-or-CLASSnnn")
+		vAssume(nd == 1 || ds[0] != '0')
+		vReach("mnemonic")
+		if vChoice("what2", 2) == 0 {
+			got, ok := typeToInt("TYPE" + string(ds))
+			vAssert(ok == (val <= 65535) && (!ok || uint32(got) == val), "TYPEnnn-reads-as-nnn")
 		} else {
-			vAssert(got == code, "class-mnemonic-reads-back")
+			got, ok := classToInt("CLASS" + string(ds))
+			vAssert(ok == (val <= 65535) && (!ok || uint32(got) == val), "CLASSnnn-reads-as-nnn")
 		}
-		v, ok3 := classToInt("CLASS" + vItoa(int(code)))
-		vAssert(ok3 && v == code, "CLASSnnn-reads-as-nnn")
+	case 2: // every type mnemonic, through the zone parser, in the generic form
+		var codes []uint16
+		for c := range TypeToString {
+			codes = append(codes, c)
+		}
+		for i := range codes { // deterministic order
+			for j := i + 1; j < len(codes); j++ {
+				if codes[j] < codes[i] {
+					codes[i], codes[j] = codes[j], codes[i]
+				}
+			}
+		}
+		c := codes[vChoice("mn", len(codes))]
+		vReach("mnemonic")
+		switch c { // query types and meta records never appear in master files and are refused outright
+		case TypeTSIG, TypeOPT, TypeANY, TypeAXFR, TypeIXFR, TypeMAILA, TypeMAILB:
+			return
+		}
+		name := TypeToString[c]
+		rr, err := NewRR(string([]byte{vLower("l")}) + ". 60 IN " + name + " \\# 0")
+		region := c == TypeNone || c == TypeReserved
+		vAssertExcept(err == nil && rr != nil && rr.Header().Rrtype == c, "type-mnemonic-reads-back-as-its-code-point", region, "C05-none-reserved-mnemonics")
+		vAssert(Type(c).String() == name, "type-prints-as-its-mnemonic")
+	default: // code points without mnemonic print as TYPEnnn / CLASSnnn
+		c := []uint16{0, 1, 255, 256, 4095, 32767, 65280, 65534, 65535}[vChoice("code", 9)]
+		vReach("mnemonic")
+		if _, has := TypeToString[c]; !has {
+			vAssert(Type(c).String() == "TYPE"+vItoa(int(c)), "type-without-mnemonic-prints-as-TYPEnnn")
+		}
+		if _, has := ClassToString[c]; !has {
+			vAssert(Class(c).String() == "CLASS"+vItoa(int(c)), "class-without-mnemonic-prints-as-CLASSnnn")
+		}
 	}
-	vReach("mnemonic")
 }
 
 // H_C05_generic: a record written in the RFC 3597 generic form (\# length hex) under its mnemonic or TYPEnnn parses to
 // the same record (same RDATA octets) as the typed form.
 func H_C05_generic() {
 	t := vPickType()
+	vAssume(t != TypeTSIG && t != TypeANY) // meta/query types never appear in master files; the parser refuses their mnemonics outright
 	rr, w, g := vBuildRR("r.", t)
 	vAssume(rr != nil)
 	owner, _ := refEscapeName(g.exp[len(g.exp)-1].labels)
